@@ -1,110 +1,199 @@
 (* Tie of the event-level value model (Abs/Values.v) to the real code: the atomic events of ONE
-   component key are extracted from a real trace (application writes, one detector run + send per
-   real frame of a peer that is set up, one delivery per received update of the key, a join when
-   the host handles RequestInitialSync) and replayed with the extracted `vstep`; after every real
-   frame the model's value of the key on that peer must equal the observed one, every delivery
-   must find the received value at the head of the model's link, and every event must be enabled. *)
+   component key (entity handle, type) are extracted from a real trace and replayed with the
+   extracted `vstep`. The session starts with the host alone (`vinit 0`); every happening of a real
+   frame is placed at its position in the executable order of that frame (read from the schedule):
+     OP p write h t v (between frames)              -> VWrite p v, at the line
+     OP p appcmd k insert h t v                     -> VWrite p v at the flush that follows application
+                                                       system k in p's next frame (the sync node if the
+                                                       system runs before it, else the end of Update)
+     one run of sync_detect::<T> per frame          -> VDetect p at the position of Detect:t
+     one run of react_on_changed_components         -> VSend p at the position of SrvReact / CliReact
+     RCV p from comp h t v                          -> VDeliver from p at the flush that follows the
+                                                       receiver (the apply is a deferred command); the
+                                                       received value must be the head of the model's link
+     the host handles RequestInitialSync of c       -> VJoin c at the flush that follows the receiver
+   What the host sends to a client that is transport-connected but whose RequestInitialSync it has
+   not handled yet (the join window; in the model such a client is not in the session) is counted
+   and skipped when that client receives it (it precedes the snapshot on the ordered link).
+   After every real frame of a peer that has finished its join the model's value of the key on that
+   peer must equal the observed one; at every real quiescent point the model must be quiescent and,
+   when the executable premise of a convergence theorem holds of the event sequence, its conclusion
+   must hold of the model. Histories outside the abstraction print ABSSKIP and are not compared: a
+   write by a peer that has not joined, a joiner that knew the entity before its snapshot, despawn
+   of the entity, promotion / re-connection. *)
 open Model
 open Drv_common
 
 let absval file handle tyid =
   let lines = Array.of_list (read_lines file) in
-  let n = ref 0 in
-  let st = ref None in
-  let joined : (int, bool) Hashtbl.t = Hashtbl.create 8 in
-  let setup : (int, bool) Hashtbl.t = Hashtbl.create 8 in
+  let nl = Array.length lines in
+  let s0 = vinit O in
+  let st = ref s0 in
   let events = ref 0 in
-  let init = ref None and evs = ref [] and lastw = ref None in
+  let evs = ref [] and lastw = ref None in
+  let skip = ref None in
+  let setup : (int, bool) Hashtbl.t = Hashtbl.create 8 in
+  let order : (int, string list) Hashtbl.t = Hashtbl.create 8 in
+  let pending : (int, (int * string) list) Hashtbl.t = Hashtbl.create 8 in   (* application writes waiting for the next frame *)
+  let pre : (int, int) Hashtbl.t = Hashtbl.create 8 in                        (* join-window messages on their way to a client *)
+  let settled : (int, bool) Hashtbl.t = Hashtbl.create 8 in                   (* the client has received FinishedInitialSync *)
   let nd s = n_of_decimal s and ds x = decimal_of_n x in
-  let ds_ = ds in
-  let rec nat_of_int x = if x <= 0 then O else S (nat_of_int (x - 1)) in
-  let state () = match !st with Some s -> s | None -> failwith "no state" in
+  let get t p = try Hashtbl.find t p with Not_found -> 0 in
+  let bail why = skip := Some why; raise Exit in
+  let exists p = p = 0 || List.exists (fun q -> int_of_n q = p) (vconn !st) in
   let step lineno ev what =
     incr events;
     evs := ev :: !evs;
     (match ev with VWrite (_, v) -> lastw := Some v | _ -> ());
-    match vstep (state ()) ev with
-    | Some s' -> st := Some s'
+    match vstep !st ev with
+    | Some s' -> st := s'
     | None -> diff "line %d: abstract event %s is not enabled in the value model" lineno what in
+  let index l x = let rec go i = function [] -> -1 | y :: r -> if y = x then i else go (i + 1) r in go 0 l in
   let i = ref 0 in
-  let nl = Array.length lines in
-  while !i < nl do
-    let w = split_ws lines.(!i) in
-    (match w with
-     | "PEERS" :: k :: _ ->
-         n := int_of_string k;
-         (* host + clients 1..n-1, all in the session from the start of the abstract run; late joiners
-            are handled by VJoin only for peers beyond the initial ones: scenarios used here connect
-            every peer before the first write *)
-         st := Some (vinit (nat_of_int (!n - 1)));
-         init := !st
-     | "OP" :: p :: "setup" :: _ -> Hashtbl.replace setup (int_of_string p) true
-     | [ "OP"; p; "write"; h; t; v ] when h = handle && t = tyid ->
-         step (!i + 1) (VWrite (n_of_int (int_of_string p), nd v)) (Printf.sprintf "write %s by %s" v p)
-     | "OP" :: p :: "spawn" :: h :: _ :: comps when h = handle ->
-         List.iter (fun tv -> match String.split_on_char ':' tv with
-             | [ t; v ] when t = tyid -> step (!i + 1) (VWrite (n_of_int (int_of_string p), nd v)) ("initial value " ^ v)
-             | _ -> ()) comps
-     | [ "FRAME"; p ] ->
-         let pi = int_of_string p in
-         let pn = n_of_int pi in
-         let block = ref [] in
-         incr i;
-         while !i < nl && lines.(!i) <> "END" do block := lines.(!i) :: !block; incr i done;
-         let block = List.rev !block in
-         let connected = List.exists (fun l -> match split_ws l with
-             | "ST" :: _ :: rest -> List.mem "server=C" rest || List.mem "client=C" rest
-             | _ -> false) block in
-         if Hashtbl.mem setup pi && connected then begin
-           step (!i + 1) (VDetect pn) (Printf.sprintf "detect on %d" pi);
-           step (!i + 1) (VSend pn) (Printf.sprintf "send on %d" pi)
-         end;
-         List.iter (fun l -> match split_ws l with
-             | [ "RCV"; _; from; "comp"; h; t; v ] when h = handle && t = tyid ->
-                 let src = if from = "h" then 0 else int_of_string from in
-                 let head = match link (state ()) (n_of_int src) pn with x :: _ -> ds x | [] -> "(empty)" in
-                 incr checked;
-                 if head <> v then diff "line %d: peer %d received value %s for the key, the value model's link %d->%d has %s at its head" (!i + 1) pi v src pi head;
-                 step (!i + 1) (VDeliver (n_of_int src, pn)) (Printf.sprintf "deliver %d->%d" src pi)
-             | _ -> ()) block;
-         (* observed value of the key on this peer *)
-         let observed = List.fold_left (fun acc l -> match split_ws l with
-             | "E" :: _ :: _ :: rest ->
-                 let kvs = List.map (fun x -> match String.index_opt x '=' with Some k -> (String.sub x 0 k, String.sub x (k + 1) (String.length x - k - 1)) | None -> (x, "")) rest in
-                 if (try List.assoc "sync" kvs = handle with Not_found -> false) then begin
-                   let comps = try List.assoc "comps" kvs with Not_found -> "-" in
-                   let found = List.fold_left (fun a tv -> match String.split_on_char ':' tv with
-                       | [ t; v ] when t = tyid -> Some v | _ -> a) None (if comps = "-" then [] else String.split_on_char ',' comps) in
-                   (match found with Some v -> Some v | None -> acc)
-                 end else acc
-             | _ -> acc) None block in
-         let modelv = match pcur (state ()) pn with Some v -> Some (ds v) | None -> None in
-         if List.exists (fun l -> match split_ws l with "E" :: _ -> true | "ST" :: _ -> true | _ -> false) block then begin
+  (try
+    while !i < nl do
+      let w = split_ws lines.(!i) in
+      (match w with
+       | "OP" :: p :: "setup" :: _ ->
+           let pi = int_of_string p in
+           if Hashtbl.mem setup pi then bail "a peer is set up twice (re-connection)";
+           Hashtbl.replace setup pi true
+       | "OP" :: _ :: ("promote" | "removetransports" | "reconnect") :: _ -> bail "promotion / transport removal / re-connection"
+       | [ "OP"; _; "despawn"; h ] when h = handle -> bail "the entity of the key is despawned"
+       | "OP" :: _ :: "appcmd" :: _ :: "despawn" :: h :: _ when h = handle -> bail "the entity of the key is despawned"
+       | [ "OP"; _; "excl"; h; t; _ ] when h = handle && t = tyid -> bail "the key is excluded from synchronisation"
+       | [ "OP"; p; "write"; h; t; v ] when h = handle && t = tyid ->
+           let pi = int_of_string p in
+           if not (exists pi) then bail "write by a peer that has not joined";
+           step (!i + 1) (VWrite (n_of_int pi, nd v)) (Printf.sprintf "write %s by %s" v p)
+       | [ "OP"; p; "appcmd"; k; "insert"; h; t; v ] when h = handle && t = tyid ->
+           let pi = int_of_string p in
+           if not (exists pi) then bail "write by a peer that has not joined";
+           Hashtbl.replace pending pi ((try Hashtbl.find pending pi with Not_found -> []) @ [ (int_of_string k, v) ])
+       | "OP" :: p :: "spawn" :: h :: _ :: comps when h = handle ->
+           let pi = int_of_string p in
+           List.iter (fun tv -> match String.split_on_char ':' tv with
+               | [ t; v ] when t = tyid ->
+                   if not (exists pi) then bail "write by a peer that has not joined";
+                   step (!i + 1) (VWrite (n_of_int pi, nd v)) ("initial value " ^ v)
+               | _ -> ()) comps
+       | [ "QUIESCENT" ] ->
            incr checked;
-           if observed <> modelv then
-             diff "line %d: after this frame peer %d shows %s for the key, the value model says %s" (!i + 1) pi
-               (match observed with Some v -> v | None -> "nothing") (match modelv with Some v -> v | None -> "nothing")
-         end
-     | [ "QUIESCENT" ] ->
-         incr checked;
-         if not (vquiescentb (state ())) then diff "line %d: the real run is quiescent, the value model is not" (!i + 1);
-         (* the premises of the convergence theorems, evaluated on the event sequence of this real run *)
-         (match !init with
-          | Some s0 when !events > 0 ->
-              let tr = List.rev !evs in
-              let co = causally_ordered s0 tr in
-              let ds = ds_from None s0 tr && jr_from [] s0 tr in
-              Printf.printf "ABSPREMISE causal=%d drainsep=%d writes=%d\n" (if co then 1 else 0) (if ds then 1 else 0)
-                (List.length (List.filter (fun e -> match e with VWrite _ -> true | _ -> false) tr));
-              if ds && not co then diff "line %d: a drain-separated history is not causally ordered (C02_drain_separated_is_causal fails on it)" (!i + 1);
-              if co && vquiescentb (state ()) then
-                List.iter (fun p ->
-                    incr checked;
-                    if pcur (state ()) p <> !lastw then
-                      diff "line %d: causally ordered history, quiescent, yet peer %s does not hold the last write in the value model (C02_causal_converge fails on it)" (!i + 1) (ds_ p)) (n_of_int 0 :: vconn (state ()))
-          | _ -> ())
-     | _ -> ());
-    incr i
-  done;
-  ignore joined;
+           if not (vquiescentb !st) then diff "line %d: the real run is quiescent, the value model is not" (!i + 1);
+           (* the premises of the convergence theorems, evaluated on the event sequence of this real run *)
+           if !lastw <> None then begin
+             let tr = List.rev !evs in
+             let co = causally_ordered s0 tr in
+             let dsep = ds_from None s0 tr && jr_from [] s0 tr in
+             Printf.printf "ABSPREMISE causal=%d drainsep=%d writes=%d\n" (if co then 1 else 0) (if dsep then 1 else 0)
+               (List.length (List.filter (fun e -> match e with VWrite _ -> true | _ -> false) tr));
+             if dsep && not co then diff "line %d: a drain-separated history is not causally ordered (C02_drain_separated_is_causal fails on it)" (!i + 1);
+             if co && vquiescentb !st then
+               List.iter (fun p ->
+                   incr checked;
+                   if pcur !st p <> !lastw then
+                     diff "line %d: causally ordered history, quiescent, yet peer %s does not hold the last write in the value model (C02_causal_converge fails on it)" (!i + 1) (ds p)) (n_of_int 0 :: vconn !st)
+           end
+       | [ "FRAME"; p ] ->
+           let pi = int_of_string p in
+           let pn = n_of_int pi in
+           let block = ref [] in
+           incr i;
+           while !i < nl && lines.(!i) <> "END" do block := lines.(!i) :: !block; incr i done;
+           let block = List.rev !block in
+           List.iter (fun l -> match split_ws l with
+               | "ORD" :: q :: o when int_of_string q = pi -> Hashtbl.replace order pi o
+               | _ -> ()) block;
+           let ord = try Hashtbl.find order pi with Not_found -> [] in
+           let pos n = let k = index ord n in if k < 0 then 1000 else k in
+           let connected = List.exists (fun l -> match split_ws l with
+               | "ST" :: _ :: rest -> List.mem "server=C" rest || List.mem "client=C" rest
+               | _ -> false) block in
+           let srv = (pi = 0) in
+           let sync = pos "Sync" in
+           let poll = pos (if srv then "SrvPoll" else "CliPoll") in
+           let flush_of sp = if sp < sync then sync else 2000 in
+           (* clients the host's transport knows in this frame *)
+           let net_clients = List.fold_left (fun acc l -> match split_ws l with
+               | "NET" :: _ :: rest ->
+                   List.fold_left (fun a x -> if String.length x > 8 && String.sub x 0 8 = "clients=" && x <> "clients=-"
+                                              then List.map int_of_string (String.split_on_char ',' (String.sub x 8 (String.length x - 8))) else a) acc rest
+               | _ -> acc) [] block in
+           let window () = List.filter (fun c -> not (exists c)) net_clients in
+           let acts = ref [] in
+           let seq = ref 0 in
+           let add position sys a = incr seq; acts := ((position, sys, !seq), a) :: !acts in
+           if Hashtbl.mem setup pi && connected && exists pi then begin
+             let d = pos ("Detect:" ^ tyid) in
+             if d < 1000 then add d d `Detect;
+             let r = pos (if srv then "SrvReact" else "CliReact") in
+             if r < 1000 then add r r `Send
+           end;
+           (* application writes issued before this frame: applied at the flush after their system *)
+           List.iter (fun (k, v) ->
+               let sp = pos (Printf.sprintf "App:%d" k) in
+               add (flush_of sp) sp (`Write v)) (try Hashtbl.find pending pi with Not_found -> []);
+           Hashtbl.replace pending pi [];
+           List.iter (fun l -> match split_ws l with
+               | [ "RCV"; _; from; "comp"; h; t; v ] when h = handle && t = tyid ->
+                   add (flush_of poll) poll (`Deliver ((if from = "h" then 0 else int_of_string from), v))
+               | [ "RCV"; _; from; "reqinit" ] when srv -> add (flush_of poll) poll (`Join (int_of_string from))
+               | [ "RCV"; _; _; "fininit" ] -> add (flush_of poll) poll `Fin
+               | _ -> ()) block;
+           let acts = List.sort compare !acts in
+           List.iter (fun (_, a) -> match a with
+               | `Detect -> step (!i + 1) (VDetect pn) (Printf.sprintf "detect on %d" pi)
+               | `Send ->
+                   if srv then begin
+                     let k = List.length (poutq !st pn) in
+                     List.iter (fun c -> Hashtbl.replace pre c (get pre c + k)) (window ())
+                   end;
+                   step (!i + 1) (VSend pn) (Printf.sprintf "send on %d" pi)
+               | `Write v -> step (!i + 1) (VWrite (pn, nd v)) (Printf.sprintf "application write %s on %d" v pi)
+               | `Fin -> Hashtbl.replace settled pi true
+               | `Join c ->
+                   (* send_initial_sync flushes the host's queue to every transport-connected client, the
+                      joiner included (to the joiner it precedes the snapshot), then sends the snapshot *)
+                   let k = List.length (poutq !st (n_of_int 0)) in
+                   List.iter (fun c' -> Hashtbl.replace pre c' (get pre c' + k)) (window ());
+                   step (!i + 1) (VJoin (n_of_int c)) (Printf.sprintf "join of %d" c)
+               | `Deliver (src, v) ->
+                   if get pre pi > 0 && src = 0 then Hashtbl.replace pre pi (get pre pi - 1)      (* sent before this client's snapshot *)
+                   else if not (exists pi) then ()                                              (* not in the session: dropped by the real receiver too *)
+                   else begin
+                     let before = pcur !st pn in
+                     let head = match link !st (n_of_int src) pn with x :: _ -> ds x | [] -> "(empty)" in
+                     incr checked;
+                     if head <> v then diff "line %d: peer %d received value %s for the key, the value model's link %d->%d has %s at its head" (!i + 1) pi v src pi head;
+                     step (!i + 1) (VDeliver (n_of_int src, pn)) (Printf.sprintf "deliver %d->%d" src pi);
+                     (* the host relays an applied update to the other clients: also to those in the join window *)
+                     if srv && pcur !st pn <> before then
+                       List.iter (fun c -> if c <> src then Hashtbl.replace pre c (get pre c + 1)) (window ())
+                   end) acts;
+           (* observed value of the key on this peer *)
+           let observed = List.fold_left (fun acc l -> match split_ws l with
+               | "E" :: _ :: _ :: rest ->
+                   let kvs = List.map (fun x -> match String.index_opt x '=' with Some k -> (String.sub x 0 k, String.sub x (k + 1) (String.length x - k - 1)) | None -> (x, "")) rest in
+                   if (try List.assoc "sync" kvs = handle with Not_found -> false) then begin
+                     let comps = try List.assoc "comps" kvs with Not_found -> "-" in
+                     let found = List.fold_left (fun a tv -> match String.split_on_char ':' tv with
+                         | [ t; v ] when t = tyid -> Some v | _ -> a) None (if comps = "-" then [] else String.split_on_char ',' comps) in
+                     (match found with Some v -> Some v | None -> acc)
+                   end else acc
+               | _ -> acc) None block in
+           let has_state = List.exists (fun l -> match split_ws l with "E" :: _ -> true | "ST" :: _ -> true | _ -> false) block in
+           if has_state && not srv && not (Hashtbl.mem settled pi) && observed <> None && (not (exists pi) || pcur !st pn = None) then
+             bail "a joiner knew the entity before its snapshot (live spawn in the join window)";
+           if has_state && exists pi && (srv || Hashtbl.mem settled pi) then begin
+             let modelv = match pcur !st pn with Some v -> Some (ds v) | None -> None in
+             incr checked;
+             if observed <> modelv then
+               diff "line %d: after this frame peer %d shows %s for the key, the value model says %s" (!i + 1) pi
+                 (match observed with Some v -> v | None -> "nothing") (match modelv with Some v -> v | None -> "nothing")
+           end
+       | _ -> ());
+      incr i
+    done
+  with Exit -> ());
+  (match !skip with Some why -> Printf.printf "ABSSKIP %s\n" why | None -> ());
   Printf.printf "ABSEVENTS %d\n" !events
